@@ -69,12 +69,7 @@ Theorem C18_exactly_once_refuted_queue_full :
   exists ops, let s := run 256 ops init in
     quiescent s /\ In (257, 5, 9) (spec_drops ops) /\ inb (257, 5, 9) (published s) = false
     /\ lost s = [(CQueueFull, (257, 5, 9))].
-Proof.
-  exists (flush_ops 256 (wit_queue 256)).
-  pose proof refuted_queue_full_256 as H. unfold queue_full_check in H.
-  injection H as H1 H2 H3 _ _ H6.
-  split; [apply quiescentb_ok; exact H1|]. split; [apply inb_ok; exact H2|]. split; assumption.
-Qed.
+Proof. exact refuted_queue_full_256. Qed.
 
 Theorem C18_exactly_once_refuted_unparseable_receiver :
   exists ops, let s := run 256 ops init in
